@@ -41,8 +41,10 @@ def run_table(ctx, table, config="std", tier=None, per=8192, spec_table=None, ex
     d = ctx.work.fresh("table_%s_%s_" % (table, config), "d")
     mode = [table] if table in ("ints", "serde") else ["table", table]
     out, dt = harness(config, mode + [d, tier, str(ctx.seed), str(per)], timeout=7200)
-    info = json.loads(out.strip().splitlines()[-1])
+    lines = out.strip().splitlines()
+    info = json.loads(lines[-1])
     chunks, nrows = info["chunks"], info["rows"]
+    ctx.distinct_rows = getattr(ctx, "distinct_rows", 0) + json.loads(lines[-2])["distinct_nontrivial"]
     if nrows == 0:
         raise ToolError("table %s is empty" % table)
     cfg = "SPECIFICATION Spec\nCONSTANTS\n  K = %d\n  Table = \"%s\"\nCHECK_DEADLOCK FALSE\n" % (
@@ -55,6 +57,9 @@ def run_table(ctx, table, config="std", tier=None, per=8192, spec_table=None, ex
         raise ToolError("TLC did not judge every row of table %s (%d of %d):\n%s" % (table, judged, nrows, tlc_text(res)))
     ctx.rows = getattr(ctx, "rows", 0) + nrows
     ctx.traces += chunks
+    # the judge is a TLC run of Tables.tla: one initial state and one judging transition per chunk
+    ctx.states += res.distinct
+    ctx.transitions += max(res.generated - chunks, chunks)
     bad = res.of("ROWBAD")
     findings = []
     cache = {}
@@ -118,7 +123,7 @@ def table_canary(ctx, d, table, mutate, spec_table=None):
 def finish_pure(ctx, rule, exhaustive=False):
     ctx.rule = rule
     ctx.exhaustive = exhaustive and ctx.tier == "thorough"
-    ctx.distinct = getattr(ctx, "rows", 0)
+    ctx.distinct = getattr(ctx, "distinct_rows", 0)
     ctx.extra = {"tables": getattr(ctx, "table_stats", {})}
     shutil.rmtree(ctx.work.dir, ignore_errors=True)
     os.makedirs(ctx.work.dir, exist_ok=True)
@@ -156,7 +161,7 @@ def c01(ctx):
                      "harness-defined third-party implementors; every StructuredShortMessage value constructed "
                      "directly from its fields (thorough: all 1.33M; quick: boundary fields); 128+120 quarter-frame and "
                      "256 type-byte conversions.  Oracle: ValidStatus / identity / Canon (= Mask, proved equal by TLC on "
-                     "the whole domain).  distinct_nontrivial = number of distinct rows judged.", exhaustive=True)
+                     "the whole domain).  distinct_nontrivial = distinct rows (hash of the whole row) whose call succeeded (accepted / constructed), counted by the harness.", exhaustive=True)
 
 
 def c02(ctx):
@@ -170,7 +175,7 @@ def c02(ctx):
     finish_pure(ctx, "rows: the full accessor vector (26 trait-method results, each call guarded on its own) of every "
                      "triple for raw, structured and third-party implementations, judged against Obs (the MIDI 1.0 "
                      "table in ShortMsg.tla); ShortMessageType <-> u8 for all 256 bytes; controller-number "
-                     "predicates for all 128 numbers.  distinct_nontrivial = distinct rows judged.", exhaustive=True)
+                     "predicates for all 128 numbers.  distinct_nontrivial = distinct rows whose call succeeded, counted by the harness.", exhaustive=True)
 
 
 def c03(ctx):
@@ -180,7 +185,7 @@ def c03(ctx):
     finish_pure(ctx, "rows: per triple, the accessor vectors of RawShortMessage, StructuredShortMessage, a byte-getter-"
                      "only implementor and one overriding to_bytes, compared by == inside the harness (flags) and against "
                      "Obs / Obs o Canon by TLC; conversions to_other / from_other / to_structured between all of them.  "
-                     "distinct_nontrivial = distinct rows judged.", exhaustive=True)
+                     "distinct_nontrivial = distinct rows whose call succeeded, counted by the harness.", exhaustive=True)
 
 
 def _set_flag(rows, rng):
@@ -231,7 +236,7 @@ def c04(ctx):
                      "length 3 (thorough: 4) plus boundary / leading-zero / non-ASCII numerals; MIN/MAX/Default - produced by "
                      "TWO builds of the harness (default features; default-features = false) and judged by TLC against "
                      "InRange / TryOk / ParseOk; plus the range conjunct on accessor vectors of short messages and on every "
-                     "report of the scanners and encoders in random traces.  distinct_nontrivial = rows judged.")
+                     "report of the scanners and encoders in random traces.  distinct_nontrivial = distinct rows whose call succeeded, counted by the harness.")
     ctx.events = events
 
 
@@ -245,7 +250,7 @@ def c05(ctx):
                      "ones), every out-conversion of every value of each type to 12 primitives and the wider newtypes, Display "
                      "into a stack buffer for every value and parse of that text, parse of the string set of C04, Ord/Eq/min/max "
                      "on all pairs (U4, Channel), 128x128 (thorough) or boundary pairs, MIN/MAX/Default; judged by TLC against "
-                     "the operators of MidiInts.tla.  distinct_nontrivial = rows judged.")
+                     "the operators of MidiInts.tla.  distinct_nontrivial = distinct rows whose call succeeded, counted by the harness.")
 
 
 # ----------------------------------------------------------------------------- C06 / C09
@@ -258,7 +263,7 @@ def c06(ctx):
                      "tuples, 16 x 16384 pitch bends, all positions / frames / songs; quick: boundary product + seeded random) "
                      "for RawShortMessage and StructuredShortMessage, the three generic constructors x all 23 types (panic "
                      "column), every test_util shorthand with primitive arguments including out-of-range ones; row = panic "
-                     "flag + full accessor vector, judged against NamedBytes / Obs / Canon.  distinct_nontrivial = rows judged.",
+                     "flag + full accessor vector, judged against NamedBytes / Obs / Canon.  distinct_nontrivial = distinct rows whose call succeeded, counted by the harness.",
                 exhaustive=True)
 
 
@@ -280,12 +285,13 @@ def c09(ctx):
                      "x boundary values, all 128 / every fifth (thorough: every) 14-bit value x boundary numbers, all 16 "
                      "channels, plus 60k (thorough: 1M) seeded random points of the full product; the encoder is a product of "
                      "independent slices (number, value, channel, kind).  Judged against PnEncode.  "
-                     "distinct_nontrivial = rows judged.")
+                     "distinct_nontrivial = distinct rows whose call succeeded, counted by the harness.")
 
 
 # ----------------------------------------------------------------------------- C19
 
 def c19(ctx):
+    run_mc_pure(ctx, "MC_PnMsg", {}, ["Inv"], tag="MC_PnMsg")      # PnValid / PnEncode theorems used by the judge
     d, f, n = run_table(ctx, "serde", config="serde", per=50000)
     table_canary(ctx, d, "serde", lambda rows, rng: _corrupt_at(rows, rng, lambda r: r[0] == 0 and r[5] == 1 and r[2] == 0, 6))
     finish_pure(ctx, "rows (third build of the harness: features serde + serde_repr): each integer type from every JSON integer "
@@ -295,7 +301,7 @@ def c19(ctx):
                      "its natural representation for all 23 variants with in- and out-of-range fields; ShortMessageType -2..300; the "
                      "natural representation (to_value) of valid values of every type deserialized and compared.  After a successful "
                      "deserialization the panicking accessors are called.  Judged by TLC: ok => Valid, Valid => ok and equal.  "
-                     "distinct_nontrivial = rows judged.")
+                     "distinct_nontrivial = distinct rows whose call succeeded, counted by the harness.")
 
 
 def replay(ctx, path):
